@@ -6399,8 +6399,12 @@ class Path(Shape, MutableSequence):
     def reverse(self):
         if len(self._segments) == 0:
             return
-        prepoint = self._segments[0].start
-        self._segments[0].start = None
+        first_move = isinstance(self._segments[0], Move)
+        prepoint = None
+        if first_move:
+            # A leading move's start point is bookkeeping only; a drawn first segment's start is geometry.
+            prepoint = self._segments[0].start
+            self._segments[0].start = None
         p = Path()
         subpaths = list(self.as_subpaths())
         for subpath in subpaths:
@@ -6408,7 +6412,8 @@ class Path(Shape, MutableSequence):
         for subpath in reversed(subpaths):
             p += subpath
         self._segments = p._segments
-        self._segments[0].start = prepoint
+        if isinstance(self._segments[0], Move):
+            self._segments[0].start = prepoint
         return self
 
     def subpath(self, index):
